@@ -31,6 +31,7 @@ OUTSIDE = P.OUTSIDE_PIPELINE + ["'under different hash seeds': set / dict iterat
 BOUNDS = {"quick": "NP (4 reporting) and GA (7 reporting), 2 nonreporting, 1 unexpected; histories on one client: [R, R], [R, R', R] with R' a "
                    "different estimator / alphas / estimands / aggregates, and fresh client vs used client; same config object reused; seed "
                    "setting 0; callers that omit model_parameters: [R] vs [bootstrap run, other estimator, R] from a fresh process state; "
+                   "two calls that are handed the same baseline / feed DataFrame objects (NP, GA, bootstrap); "
                    "bootstrap draws of two models built from the same seed setting (2 training units, 1 outstanding unit, B = 2, seeds 0 and 7)",
           "thorough": "adds 2 estimands and histories of 4 calls"}
 OPTS = {"quick": dict(case_timeout_s=900, solver_timeout_ms=30000), "thorough": dict(case_timeout_s=3000, solver_timeout_ms=60000)}
@@ -59,6 +60,14 @@ def cases(tier):
                         R=R, other_pi=other_pi, cut_calibration=True, weight=20))
         out.append(dict(name="%s_fresh_vs_used" % pi[:2], units=P.standard_units(max(nrep, 7), 2, [P.U("c2_x0", "unexp")], cls=True),
                         R=R, Rp=others["other_estimator"], fresh=True, cut_calibration=True, weight=10))
+    # the caller hands the very same data frame objects (baseline and feed) to two successive calls
+    for pi, nrep, a1 in (("nonparametric", 4, 0.5), ("gaussian", 7, 0.7)):
+        out.append(dict(name="%s_shared_frames" % pi[:2], kind="shared", units=P.standard_units(nrep, 2, [P.U("c2_x0", "unexp")], cls=True),
+                        R=dict(pi=pi, alphas=[a1], estimands=["dem", "turnout"], aggregates=aggs), cut_calibration=True, weight=10))
+    from . import bs as BS
+
+    out.append(dict(name="bs_shared_frames", kind="shared", units=BS.margin_units(10, 2, 1), B=2,
+                    R=dict(pi="bootstrap", alphas=[0.9], estimands=["margin"], aggregates=aggs), weight=20))
     for seed in (0, 7):
         out.append(dict(name="bootstrap_draws_seed%d" % seed, kind="bs_entropy", seed=seed, R=dict(pi="bootstrap"), weight=15))
     return out
@@ -107,7 +116,49 @@ def run_process(ctx, case):
     return obl, {"alone": P.tables_out(a), "after_others": P.tables_out(b)}
 
 
+def run_shared(ctx, case):
+    """two calls with the SAME baseline and feed DataFrame objects (what a long-running caller does) give the same tables"""
+    from . import bs as BS
+
+    bs_mode = case["R"]["pi"] == "bootstrap"
+    c = dict(case, **case["R"])
+    results = []
+    if bs_mode:
+        sc = BS.build_bs(ctx, c)
+        pre, cur = sc.frames()
+        boot = BS.BootStub(ctx, case["B"]).install()
+        try:
+            for _ in range(2):
+                results.append({k: v.copy() for k, v in BS.run_bs_client(ctx, c, sc=sc, boot=boot, frames=(pre, cur)).res.items()})
+        finally:
+            boot.uninstall()
+    else:
+        sc = P.build(ctx, c)
+        pre, cur = sc.frames()
+        for _ in range(2):
+            results.append({k: v.copy() for k, v in P.run_client(ctx, c, sc=sc, frames=(pre, cur)).res.items()})
+    a, b = results
+    obl = [("same set of tables", sorted(a) == sorted(b))]
+    if bs_mode:
+        # the bootstrap's numeric core is stubbed here, so also compare what it is handed in the two calls
+        obl.append(("the bootstrap core is invoked once per call", len(boot.inputs) == 2))
+        if len(boot.inputs) == 2:
+            for nm, i in (("reporting", 0), ("nonreporting", 1)):
+                fa, fb = boot.inputs[0][i], boot.inputs[1][i]
+                for col_ in ("baseline_weights", "turnout_factor", "results_normalized_margin", "baseline_normalized_margin",
+                             "last_election_results_margin", "results_weights"):
+                    if col_ in fa.columns and col_ in fb.columns:
+                        same = all(bool(T.cell_equal(x, y)) if not isinstance(T.cell_equal(x, y), sym.SymBool) else True
+                                   for x, y in zip(fa[col_].tolist(), fb[col_].tolist()))
+                        obl.append(("%s units: %s handed to the bootstrap is the same in both calls" % (nm, col_), same))
+    for t in sorted(set(a) & set(b)):
+        obl += T.compare_tables(a[t], b[t], t)
+    return obl, {"first": P.tables_out(a), "second": P.tables_out(b)}
+
+
 def run(ctx, case):
+    if case.get("kind") == "shared":
+        return run_shared(ctx, case)
     if case.get("kind") == "bs_entropy":
         return run_bs_entropy(ctx, case)
     if case.get("kind") == "process":
